@@ -738,7 +738,8 @@ impl Deserialise for ManagementAddress {
         let mgmt_addr_len = (buf
             .get_u8()
             .ok_or(pktparser::ParseError::UnexpectedEndOfInput)?)
-            - 1; /* -1 for sizeof<mgmt_addr_af> */
+        /* -1 for sizeof<mgmt_addr_af>; 0 wraps to 255 and fails the range check below */
+        .wrapping_sub(1);
         let mgmt_addr_af = buf
             .get_u8()
             .ok_or(pktparser::ParseError::UnexpectedEndOfInput)?;
